@@ -302,3 +302,19 @@ ROUND8 = {
     "C19": "Input._all_nameplates is replaced by every listing, the empty one included (C19.R7, on every path).",
     "C20": "The JSON guard starts at the Automat output in front of _use_hints and reports a constant index into a sequence built from peer data (INDEX sinks of C20.R1).",
 }
+
+
+# rules added after the ninth seed round (additive feature / new path; optimisation): closed-world statements about a resource
+ROUND9 = {
+    "C03": "get_message() hands out the received-observer's own Deferred and no other method of the front-end reads that queue (C03.R9); the echo test is the plain side comparison (C03.R10, the instance of C02.R4).",
+    "C04": "No errback stage between the transfer coroutine's Deferred and the end of go() turns a failure into a success, receiver and sender (C04.R12); every member of the received archive reaches the extractor (C04.R13).",
+    "C06": "The record parser is reached from one place only, as a call under state == 'records', and no method of Connection is re-bound on the instance (C06.R10); a Deferred parked in _waiting_reads gets no timeout / cancel unless created with a canceller (C06.R11).",
+    "C09": "Server-message handlers and the helpers they reach remove keys from their own containers only with a default or under a membership test - the mailbox is replayed after every re-open (C09.R9); self._ws has three writers: set-up, ws_open, ws_close (C09.R10).",
+    "C11": "Manager.use_hints depends on no Manager state besides the current Connector: every generation's Connector sees every hint (C11.R11).",
+    "C12": "encode_record is not memoised - records are namedtuples, Ping(x) == Pong(x) (C12.R9).",
+    "C14": "ws_open / ws_close make no application call-out (_evolve_status) between the write of self._ws and the connected() / lost() notifications (C14.R9).",
+    "C16": "Every callLater handle of the Manager is held in an attribute, and only the traffic monitor's verdict and abandon_connection drop the current connection (C16.R7).",
+    "C17": "Every deferLater attempt of the Connector is entered into _pending_connectors before the function ends (C17.R14).",
+    "C19": "Input._get_word_completions returns the wordlist's completions of the prefix as typed, nothing edited or remembered (C19.R8).",
+    "C20": "Only Manager.use_hints hands hints to the Connector (C20.R9).",
+}
